@@ -14,6 +14,7 @@
 import MxModel.Lemmas.FarmRps
 import MxModel.Lemmas.FarmArith
 import MxModel.Lemmas.FarmPot
+import MxModel.Lemmas.FarmEnterMerge
 
 namespace Mx.C06
 open Mx.Farm
@@ -85,6 +86,44 @@ theorem no_retro_entry {s s' : St} {caller orig dst amt : Nat} {o : Out}
   obtain ⟨a, h1, h2, h3, _, _, _⟩ := enterCore_token h
   have hr : s'.rps = s.rps + rpsIncr s := congrArg RV.rps (enterCore_rv h)
   exact ⟨a, h1, h2, h3, by rw [h2]; exact baseReward_same _ _ _, hr⟩
+
+/-- **no_retro_entry_merge.**  `enterFarm` WITH farm tokens sent along (enter-and-merge, any number of
+    extra payments `(nonce, amount)`): the token created has principal `amt + Σ paid amounts`, and at
+    EVERY future index `R` it can claim at most `amt·(R − index settled to the entering block)` — the
+    fresh principal earns from NOW on only — plus what the merged-in positions could already claim at
+    their own entry indexes (read from the pre-state attributes).  At `R = s'.rps` the fresh part
+    contributes exactly 0: merging on entry gives the new stake nothing retroactive. -/
+theorem no_retro_entry_merge {s s' : St} {caller orig dst amt : Nat} {extra : List (Nat × Nat)} {o : Out}
+    (h : enterCore s caller orig dst amt extra = some (s', o)) :
+    ∃ a, s'.attrs o.nonce = some a ∧ a.amt = amt + (extra.map (·.2)).sum ∧
+      (∀ R, a.amt * (R - a.rps) ≤ amt * (R - s'.rps) +
+        (extra.map fun p => p.2 * (R - (match s.attrs p.1 with | some b => b.rps | none => 0))).sum) ∧
+      a.amt * (s'.rps - a.rps) ≤
+        (extra.map fun p => p.2 * (s'.rps - (match s.attrs p.1 with | some b => b.rps | none => 0))).sum := by
+  obtain ⟨a, h1, h2, _, h3⟩ := EnterMerge.enterCore_token_merge h
+  have s1 : ∀ l : List (Nat × Nat), paySum l = (l.map (·.2)).sum := by
+    intro l; induction l with
+    | nil => rfl
+    | cons p r ih => obtain ⟨n, x⟩ := p; simp only [paySum, List.map_cons, List.sum_cons, ih]
+  have s2 : ∀ R (l : List (Nat × Nat)), payPot s.attrs R l =
+      (l.map fun p => p.2 * (R - (match s.attrs p.1 with | some b => b.rps | none => 0))).sum := by
+    intro R l; induction l with
+    | nil => rfl
+    | cons p r ih =>
+      obtain ⟨n, x⟩ := p
+      have e : rpsA s.attrs n = (match s.attrs n with | some b => b.rps | none => 0) := by
+        unfold rpsA; cases s.attrs n <;> rfl
+      simp only [payPot, List.map_cons, List.sum_cons, ih, e]
+  refine ⟨a, h1, by rw [h2, s1], fun R => by rw [← s2]; exact h3 R, ?_⟩
+  have := h3 s'.rps
+  rw [Nat.sub_self, Nat.mul_zero, Nat.zero_add, s2] at this
+  exact this
+
+/-- non-vacuity: enter 20 together with an older position of 30 after the index has moved -/
+example :
+    let s := run (init .mint false 7 10 true [1] 0) [.enter 1 none 30 [], .advance 5 0]
+    (enterCore s 1 1 1 20 [(1, 30)]).map (fun r => (r.2.amt, (r.1.attrs r.2.nonce).map (·.amt))) =
+      some (50, some 50) := by decide
 
 /-- a position's base entitlement only depends on the index difference, and is monotone in the index -/
 theorem base_reward_mono {dsc a r rps1 rps2 : Nat} (h : rps1 ≤ rps2) :
